@@ -35,7 +35,8 @@ class Parser:
     ]
 
     def is_formula(self, value):
-        return self.formula_check.match(value) or Error._re.match(value)
+        # A value that is an error literal, and nothing else, is its error.
+        return self.formula_check.match(value) or Error._re.fullmatch(value)
 
     def ast(self, expression, context=None):
         try:
